@@ -63,6 +63,8 @@ type OpFact struct {
 
 var fset = token.NewFileSet()
 
+// further tables, one generator per file of this package (registered from init)
+
 func line(p token.Pos) int { return fset.Position(p).Line }
 
 func isCtorName(n string) (string, bool) {
@@ -976,7 +978,15 @@ func writeIfChanged(path, content string) {
 func main() {
 	repo := flag.String("repo", "/repo", "repository root")
 	out := flag.String("out", "", "directory for RoGen/*.lean")
+	opsOnly := flag.Bool("opgen", false, "print the translated operator machines (OpsGen.lean) to stdout and exit")
 	flag.Parse()
+	if *opsOnly {
+		if err := runOpgen(*repo, ""); err != nil {
+			fmt.Fprintln(os.Stderr, "opgen:", err)
+			os.Exit(1)
+		}
+		return
+	}
 	var facts []OpFact
 	files, _ := filepath.Glob(filepath.Join(*repo, "operator_*.go"))
 	sort.Strings(files)
@@ -1016,13 +1026,27 @@ func main() {
 	sb.WriteString("]\n\nend RoGen.Catalogue\n")
 	if *out != "" {
 		os.MkdirAll(*out, 0o755)
+	}
+	for _, t := range extraTables {
+		t(*repo, *out)
+	}
+	if *out != "" {
 		writeIfChanged(filepath.Join(*out, "Catalogue.lean"), sb.String())
+		emitDelegation(*repo, *out) // delegation.go
+		emitPipe(*repo, *out)       // pipe.go
 		js, _ := json.MarshalIndent(facts, "", " ")
 		writeIfChanged(filepath.Join(*out, "catalogue.json"), string(js)+"\n")
-		if err := extractLocksets(*repo, *out); err != nil {
-			fmt.Fprintln(os.Stderr, "locksets:", err)
+		if err := emitPlugins(*repo, *out); err != nil {
+			fmt.Fprintln(os.Stderr, "plugins table:", err)
 			os.Exit(1)
 		}
+		writeIfChanged(filepath.Join(*out, "ChanShape.lean"), chanShapeLean(chanShapes(*repo)))
+		// the operator translator (opgen.go): lean/RoGen/OpsGen.lean
+		if err := runOpgen(*repo, *out); err != nil {
+			fmt.Fprintln(os.Stderr, "opgen:", err)
+			os.Exit(1)
+		}
+		writeFaultFacts(*repo, *out)
 	} else {
 		js, _ := json.MarshalIndent(facts, "", " ")
 		fmt.Println(string(js))
